@@ -838,6 +838,49 @@ fn examine(case: &Case, perms: &[Vec<usize>], second_observation: bool, report: 
         }
     }
 
+    // ---- monitor 4: a call is not "ambiguous" when one viable candidate dominates every other one -------------
+    // (the contrapositive of monitor 3 for rejected calls: if selecting anything else would select a dominated candidate, and the
+    // outcome may only depend on the candidates and the argument types, the dominating candidate is the only possible selection)
+    if outcomes.iter().any(|o| matches!(o, Outcome::Ambiguous)) && viable.len() >= 2 {
+        let dominating: Vec<usize> = viable
+            .iter()
+            .copied()
+            .filter(|&d| {
+                let cd = convs[d].as_ref().unwrap();
+                viable.iter().all(|&j| {
+                    if j == d {
+                        return true;
+                    }
+                    let cj = convs[j].as_ref().unwrap();
+                    cd.iter().zip(cj).all(|(a, b)| a.not_worse(b)) && cd.iter().zip(cj).any(|(a, b)| a.better(b))
+                })
+            })
+            .collect();
+        report.count("monitor:ambiguous-calls-examined");
+        if let [d] = dominating[..] {
+            let cd = convs[d].as_ref().unwrap();
+            // class: the best rank the dominating candidate uses where some other candidate is worse
+            let mut class = "shape".to_string();
+            for &j in &viable {
+                if j == d {
+                    continue;
+                }
+                let cj = convs[j].as_ref().unwrap();
+                if let Some(at) = cd.iter().zip(cj).position(|(a, b)| a.level < b.level) {
+                    class = format!("{}-over-{}", cd[at].level_name(), cj[at].level_name());
+                    break;
+                }
+            }
+            let conv_json = |c: &Vec<Conv>| Json::Arr(c.iter().map(|x| Json::str(x.text())).collect());
+            report.violation(
+                &format!("ambiguous-despite-dominating-candidate:{}", class),
+                &format!("call f({}) is rejected as ambiguous although {} converts every argument at least as well as each other viable candidate and one strictly better", case.args_text(), case.sig_text(d)),
+                witness(Json::obj().set("dominating", case.sig_text(d)).set("dominating_conversions", conv_json(cd))),
+            );
+            report.count("monitor-fired:ambiguous-despite-dominating");
+        }
+    }
+
     // ---- second observation: assert_type agrees with the callee read from the IR -------------
     if second_observation {
         let p = &perms[perms.len() - 1];
